@@ -74,6 +74,7 @@ fn prop_backoff(c: &BackoffCase, rec: &mut CaseRec) -> Result<(), Violation> {
 }
 
 pub fn run(run: &mut Run) {
+  run.level = "fault_enumeration";
   run.rule = "L1: (RECONNECT_IVL 1..10000 ms, RECONNECT_IVL_MAX in {0} or [ivl, 100*ivl], 1..200 consecutive failures, optional success in between) checked against: d0 = ivl, d(n+1) in [d(n), 2*d(n)], d(n) <= max when max > 0, reset after success, retry scheduled no earlier than now + d. L2: a socket with one healthy peer and faulty peers running generated fault sequences (garbage in each phase, wrong credentials, wrong mechanism, incompatible socket type over tcp/ipc/inproc, RST, half-close, connect bursts, listener gone and back), see c17_l2. Non-trivial = more than 3 consecutive failures (L2: the fault reached its phase while the healthy connection was up). Distinct = hash of the case".into();
   run.assumptions = vec!["RECONNECT_IVL_MAX is 0 or >= RECONNECT_IVL (documented precondition)".into()];
   let n = match run.tier {
